@@ -235,9 +235,32 @@ def run(ctx):
     require_ok(ctx, res, 'Plateaus model')
     ctx.tlc('chopper/MC_Plateaus.tla', 'Neg_Plateaus.cfg', expect_error=True, timeout=300)
 
-    # ---- 2. conformance: record executions, TLC judges
+    # ---- 1b. spec -> code: TLC simulates long behaviours of the state machine (random walks of
+    # AddPoint) and prints the final series with the maximal runs it expects; each is replayed.
+    nsim = 1500 if ctx.thorough else 250
+    sim = ctx.tlc('chopper/MC_Plateaus.tla', 'Sim_Plateaus.cfg', workers=1, simulate=f'num={nsim}', depth=14,
+                  extra=['-seed', str(ctx.seed + 11)], timeout=900, count=False)
+    require_ok(ctx, sim, 'Plateaus simulation')
+    cases = sim.tagged('CASE')
+    if len(cases) < nsim // 2:
+        raise MachineryError(f'only {len(cases)} simulated behaviours exported')
     events = []
     tid = 0
+    for _, ys, dxs, tol, runs in cases:
+        kind = ('float', 'int', 'datetime')[tid % 3]
+        ev, ok = _run_find(ctx, tid, ys, dxs, tol[0], tol[1], 1, kind, 2.0 ** ((tid % 5) - 2),
+                           2.0 ** ((tid % 7) - 3) if kind == 'float' else 1.0)
+        ctx.case(nontrivial_id=('s', tuple(ys), tuple(dxs), tuple(tol)) if ok and len(runs) > 1 else None)
+        if ok:
+            got = [[b[0], b[-1]] for b in ev['bins'] if b]
+            if got != [list(r) for r in runs]:
+                ctx.violation(f'find: bins differ from the runs of the simulated TLC behaviour ({kind} input)',
+                              {'event': ev, 'expected_runs': runs})
+        events.append(ev)   # also judged by the trace spec below
+        tid += 1
+    ctx.extra['tlc_simulated_behaviours_replayed'] = len(cases)
+
+    # ---- 2. conformance: record executions, TLC judges
     returned = 0
     maxlen = 5 if ctx.thorough else 4
     vals, steps = (0, 1, 2, 3), (1, 2, 4)
@@ -248,7 +271,7 @@ def run(ctx):
         # all series up to length 3, stratified sample of length 4
         short = [c for c in allcases if len(c[0]) <= 3]
         long_ = [c for c in allcases if len(c[0]) > 3]
-        allcases = short + ctx.rng.sample(long_, 2500)
+        allcases = short + ctx.rng.sample(long_, 1500)
     for ys, dxs, (an, ad) in allcases:
         kind = kinds[tid % 3]
         n = len(ys)
@@ -296,7 +319,7 @@ def run(ctx):
     events += _inphase_events(ctx, tid, 400 if ctx.thorough else 120)
     for e in events[:2] + events[-1:]:
         ctx.sample(e)
-    if returned < len(allcases) // 4:
+    if returned < tid // 4:
         # not a verdict about the property (which constrains returns only), but the run would be vacuous
         ctx.extra['warning'] = f'only {returned} of {tid} find_plateaus calls returned'
     ctx.extra['find_calls'] = tid
